@@ -472,7 +472,20 @@ class C11(Prop):
         "#else/#elif after #else is outside the property's text: the model keeps the code's behaviour (accepted), the theorems and the oracle exclude it",
     ]
 
+    def comparable(self, case, impl, model):
+        return not case.startswith("I ")
+
     def oracle(self, case, impl, model=None):
+        if case.startswith("I "):
+            # #include / #pragma once in selected and unselected groups: the tokens C's rules let through are written
+            # next to each probe (harness/src/c11.rs INCLUDE_PROBES)
+            if impl.startswith("PANIC"):
+                return "preprocessor panicked"
+            if impl.startswith("PROBE ") and " | " in impl:
+                got, want = impl[6:].split(" | ", 1)
+                if got.strip() != want.strip():
+                    return "directive probe %s: C's rules let `%s` through, the preprocessor produced `%s`" % (case.split()[1], want.strip(), got.strip())
+            return None
         exp = _c11_reference(case)
         if exp is None:
             return None
@@ -486,9 +499,13 @@ class C11(Prop):
         return " ; "
 
     def nontrivial(self, case, impl):
+        if case.startswith("I "):
+            return impl.startswith("PROBE")
         return impl.startswith("OK") and ("if" in case)
 
     def kind(self, case):
+        if case.startswith("I "):
+            return "include / pragma probes"
         n = case.count(";") + 1
         return "%s lines=%s" % (("ok" if "endif" in case else "open"), n if n <= 4 else ("5-8" if n <= 8 else ("9-20" if n <= 20 else "21+")))
 
@@ -1228,6 +1245,8 @@ class C12(Prop):
         return " ; "
 
     def kind(self, case):
+        if case.startswith("I "):
+            return "include / pragma probes"
         k = []
         if "A " in case.split(" ; ")[0] and case.startswith("A "):
             k.append("api")
@@ -1242,13 +1261,23 @@ class C12(Prop):
         return impl.split(" || ")[0].strip()
 
     def comparable(self, case, impl, model):
-        return model is not None and not model.startswith("MODEL-") and not model.startswith("BAD")
+        return not case.startswith("I ") and model is not None and not model.startswith("MODEL-") and not model.startswith("BAD")
 
     def _ref(self, case):
         import c12ref
         return c12ref.run_case(case), c12ref.program_facts(case)
 
     def oracle(self, case, impl, model=None):
+        if case.startswith("I "):
+            # #include / #pragma once probes shared with C11 (harness/src/c11.rs INCLUDE_PROBES): a file marked once
+            # contributes once, a file whose `#pragma once` is not in a selected group contributes every time
+            if impl.startswith("PANIC"):
+                return "preprocessor panicked"
+            if impl.startswith("PROBE ") and " | " in impl:
+                got, want = impl[6:].split(" | ", 1)
+                if got.strip() != want.strip():
+                    return "include probe %s: pasting the files gives `%s`, the preprocessor produced `%s`" % (case.split()[1], want.strip(), got.strip())
+            return None
         segs = [x.strip() for x in impl.split(" || ")]
         main = segs[0]
         if main.startswith("PANIC") or main.startswith("TIMEOUT"):
@@ -1284,7 +1313,7 @@ class C12(Prop):
 
     def known_class(self, case, impl, model):
         main = impl.split(" || ")[0].strip()
-        if main.startswith("PANIC") or main.startswith("TIMEOUT"):
+        if main.startswith("PANIC") or main.startswith("TIMEOUT") or case.startswith("I "):
             return None
         ref, (cyc, mal) = self._ref(case)
         if len(ref) > 2 and ref[2]:
